@@ -170,7 +170,7 @@ void e1_run(const e1_cfg *c, e1_stats *out) {
             out->out_hash = vf_hash64(&th, 8, out->out_hash);
             if (c->compare_outhash) {
                 uint64_t idx = out->transitions - 1;
-                if (idx >= c->compare_n || c->compare_outhash[idx] != th)
+                if (idx >= c->compare_n ? !c->compare_partial : c->compare_outhash[idx] != th)
                     vf_violation("output-depends-on-uninitialised-memory", "transition %llu transmits different bytes (or the state graph differs) when fresh allocations are filled with 0x%02x instead of the first run's pattern", (unsigned long long)idx, W.fill);
             }
             if (c->record_outhash) {
